@@ -63,6 +63,15 @@ func destForms() []destForm {
 			}
 			return gen.WrapError(from, e.local, gen.DestUnreach, code, gen.QuoteBytes(p, 1, "fix"), "min", nil, 0)
 		}},
+		// destination-unreachable from the target's own address for a probe that is not UDP (its firewall rejecting the
+		// segment / the echo request): not the protocol's proof of arrival
+		{"admin-prohibited-non-udp", func(v refmatch.Variant) bool { return v.Proto != "udp" }, func(e *simEnv, p *refmatch.Probe, from netip.Addr) []byte {
+			code := uint8(13)
+			if e.spec.V.V6 {
+				code = 1
+			}
+			return gen.WrapError(from, e.local, gen.DestUnreach, code, gen.QuoteBytes(p, 1, "fix"), "min", nil, 0)
+		}},
 		{"syn-ack", is("syn"), func(e *simEnv, p *refmatch.Probe, from netip.Addr) []byte {
 			return gen.TCPReply(from, e.local, e.spec.Port, e.lport, 0x66000000, p.Seq+1, wirefmt.TCPSyn|wirefmt.TCPAck, wirefmt.OptMSS(1460), nil, nil)
 		}},
@@ -204,6 +213,7 @@ func checkC04() fw.Check {
 					}
 				}
 			}
+			cases = append(cases, engineShapeCases("C04")...)
 			// request level: the end-to-end RTT is the RTT of the hop MARKED as the destination. The target's address
 			// answering without proof of arrival (a time-exceeded sent by the target itself for an ICMP or SYN probe, as
 			// from a host that also routes) gives a hop under the target's address that is not the destination: the
@@ -370,6 +380,30 @@ func runC05RealtimeClockStep(c *fw.Ctx, id string, v refmatch.Variant) {
 			return
 		}
 	}
+}
+
+// engineShapeCases: both engines behind the scripted driver (replies for any TTL in any order, destination replies for
+// several TTLs, a router's and the destination's reply for one TTL) judged by the shape / stop-rule oracle (used by C04 for
+// "only the destination's proof of arrival marks a hop, and it does so even when a router answered that TTL first" and by
+// C06 for the stop rule).
+func engineShapeCases(prop string) []fw.Case {
+	var cases []fw.Case
+	for _, par := range []bool{true, false} {
+		for _, pr := range [][2]int{{1, 8}, {3, 12}, {1, 30}, {250, 255}, {2, 9}} {
+			par, pr := par, pr
+			id := fmt.Sprintf("%s/engine/%s/%d-%d", prop, engName(par), pr[0], pr[1])
+			cases = append(cases, fw.Case{ID: id, Bubble: true, Run: func(c *fw.Ctx) {
+				for k := 0; k < 12; k++ {
+					p := engParams{first: uint8(pr[0]), last: uint8(pr[1]), timeout: 100 * time.Millisecond, poll: 20 * time.Millisecond, delay: 10 * time.Millisecond}
+					d := scripted.New(par, genShapeScript(c.Rng, par, p))
+					res, err := runEngine(context.Background(), par, d, p)
+					checkShape(c, fmt.Sprintf("%s rep %d", id, k), par, p, d.Snapshot(), res, err)
+				}
+				c.Nontrivial(fmt.Sprintf("engine/%s/%d-%d", engName(par), pr[0], pr[1]))
+			}})
+		}
+	}
+	return cases
 }
 
 // objectReuseCases: one protocol object, three runs, the capture filter of each run enforced (used by C06 and C12).
@@ -875,21 +909,7 @@ func checkC06() fw.Check {
 			cases = append(cases, objectReuseCases("C06")...)
 			// the stop rule at the engine boundary (scripted driver, both engines): a destination reply for ANY TTL - also one
 			// that is credited to an earlier probe than the one being waited for - ends the sending
-			for _, par := range []bool{true, false} {
-				for _, pr := range [][2]int{{1, 8}, {3, 12}, {1, 30}, {250, 255}, {2, 9}} {
-					par, pr := par, pr
-					id := fmt.Sprintf("C06/engine/%s/%d-%d", engName(par), pr[0], pr[1])
-					cases = append(cases, fw.Case{ID: id, Bubble: true, Run: func(c *fw.Ctx) {
-						for k := 0; k < 12; k++ {
-							p := engParams{first: uint8(pr[0]), last: uint8(pr[1]), timeout: 100 * time.Millisecond, poll: 20 * time.Millisecond, delay: 10 * time.Millisecond}
-							d := scripted.New(par, genShapeScript(c.Rng, par, p))
-							res, err := runEngine(context.Background(), par, d, p)
-							checkShape(c, fmt.Sprintf("%s rep %d", id, k), par, p, d.Snapshot(), res, err)
-						}
-						c.Nontrivial(fmt.Sprintf("engine/%s/%d-%d", engName(par), pr[0], pr[1]))
-					}})
-				}
-			}
+			cases = append(cases, engineShapeCases("C06")...)
 			// whole requests: the endpoints reported by RunTraceroute vs the wire, with the port omitted (documented
 			// default) and given, both families
 			for _, proto := range []string{"udp", "tcp", "icmp"} {
